@@ -493,6 +493,16 @@ def apply(t, op):
                 set(map(str, t.ids(axis=op["axis"]))):
             return Outcome(skipped="concat operands not disjoint")
         others = [other]
+        if op.get("omit_defaults"):
+            # the module-level entry point
+            import biom
+            others = [t, other]
+            r = biom.concat(others, axis=op["axis"])
+            if len(others) != 2 or others[0] is not t:
+                from .core import Violation
+                raise Violation("argument-modified", "biom.concat changed "
+                                "the list of tables it was given")
+            return Outcome(r, args=[other])
         r = t.concat(others, axis=op["axis"])
         if len(others) != 1 or others[0] is not other:
             from .core import Violation
